@@ -356,10 +356,10 @@ Qed.
 Definition same_except_queue (s s' : rstate) : Prop :=
   r_epoch s' = r_epoch s /\ r_cur s' = r_cur s /\ r_old s' = r_old s /\ r_wins s' = r_wins s /\
   r_high s' = r_high s /\ r_cid s' = r_cid s /\ r_cidneg s' = r_cidneg s /\ r_rrc s' = r_rrc s /\
-  r_closed s' = r_closed s /\ r_estab s' = r_estab s.
+  r_closed s' = r_closed s /\ r_estab s' = r_estab s /\ r_early s' = r_early s.
 
 Lemma seq_refl s : same_except_queue s s.
-Proof. unfold same_except_queue. auto 10. Qed.
+Proof. unfold same_except_queue. auto 12. Qed.
 
 Lemma seq_trans a b c : same_except_queue a b -> same_except_queue b c -> same_except_queue a c.
 Proof. unfold same_except_queue. intuition congruence. Qed.
@@ -371,7 +371,7 @@ Lemma enqueue_spec lease s b :
 Proof.
   unfold enqueue. destruct lease; cbn [andb]; [|split; [apply seq_refl | now left]].
   destruct (Nat.ltb (length (r_queue s)) max_queue) eqn:E; [|split; [apply seq_refl | now left]].
-  apply Nat.ltb_lt in E. split; [unfold same_except_queue; cbn; auto 10|]. right. cbn. auto.
+  apply Nat.ltb_lt in E. split; [unfold same_except_queue; cbn; auto 12|]. right. cbn. auto.
 Qed.
 
 Section Recv.
@@ -467,7 +467,7 @@ Section Recv.
   (* a datagram, or the parked queue, of which no record authenticates *)
   Lemma auth_cipher_ext s s' b : same_except_queue s s' -> auth_cipher s' b = auth_cipher s b.
   Proof.
-    intros (H1 & H2 & H3 & H4 & H5 & H6 & H7 & H8 & H9 & H10).
+    intros (H1 & H2 & H3 & H4 & H5 & H6 & H7 & H8 & H9 & H10 & H11).
     unfold auth_cipher, Rec13.parse_crec, cid_policy, Rec13.open_record, read_candidates.
     rewrite H2, H3, H6, H7.
     destruct (let '(expected, allowed) := _ in _) as [[h ct]|]; [|reflexivity].
@@ -523,10 +523,9 @@ Section Recv.
   | wt_other s s' : r_wins s' = r_wins s -> r_high s' = r_high s -> wtrans W s [] s'
   | wt_ensure s mx e : mx = maxseq48 \/ mx = maxseq64 ->
       wtrans W s [] (with_wins s (ensure_wins W mx e (r_wins s)))
-  | wt_mark s prot e q : (N.to_nat e < length (r_wins s))%nat ->
+  | wt_mark s e q : (N.to_nat e < length (r_wins s))%nat ->
       check (fst (get_win W e (r_wins s))) (snd (get_win W e (r_wins s))) q = true ->
-      prot = true \/ e = 0 ->
-      wtrans W s [(e, q)] (mark W prot s e q)
+      wtrans W s [(e, q)] (mark W s e q)
   | wt_trans s1 m1 s2 m2 s3 : wtrans W s1 m1 s2 -> wtrans W s2 m2 s3 -> wtrans W s1 (m1 ++ m2) s3.
 
   Lemma wt_refl W s : wtrans W s [] s.
@@ -535,40 +534,46 @@ Section Recv.
   Lemma wt_enqueue W lease s b : wtrans W s [] (enqueue lease s b).
   Proof. destruct (enqueue_spec lease s b) as [(H1 & H2 & H3 & H4 & H5 & _) _]. now apply wt_other. Qed.
 
-  Lemma wt_closed W s : wtrans W s [] (with_closed s).
-  Proof. now apply wt_other. Qed.
-
-  Lemma wt_mark_then W s prot e q s' m :
-    (N.to_nat e < length (r_wins s))%nat ->
-    check (fst (get_win W e (r_wins s))) (snd (get_win W e (r_wins s))) q = true ->
-    prot = true \/ e = 0 ->
-    wtrans W (mark W prot s e q) m s' -> wtrans W s ((e, q) :: m) s'.
-  Proof. intros H1 H2 H3 H4. change ((e, q) :: m) with ([(e, q)] ++ m). apply (wt_trans W s [(e, q)] (mark W prot s e q) m s'); [apply wt_mark; assumption|exact H4]. Qed.
+  Lemma wt_then_other W s m s1 s2 :
+    wtrans W s m s1 -> r_wins s2 = r_wins s1 -> r_high s2 = r_high s1 -> wtrans W s m s2.
+  Proof. intros H Hw Hh. rewrite <- (app_nil_r m). eapply wt_trans; [exact H|now apply wt_other]. Qed.
 
   Lemma marks_app a b : marks (a ++ b) = marks a ++ marks b.
   Proof. induction a as [|[] a IH]; cbn; auto. now rewrite IH. Qed.
 
   Lemma deliveries_app a b : deliveries (a ++ b) = deliveries a ++ deliveries b.
-  Proof. induction a as [|[] a IH]; cbn; auto. now rewrite IH. Qed.
+  Proof. induction a as [|[] a IH]; cbn; auto; now rewrite IH. Qed.
+
+  Lemma commit_wtrans W prot s e q :
+    (N.to_nat e < length (r_wins s))%nat ->
+    check (fst (get_win W e (r_wins s))) (snd (get_win W e (r_wins s))) q = true ->
+    wtrans W s (marks (snd (commit W prot s e q))) (fst (commit W prot s e q)).
+  Proof. intros Hl Hc. unfold commit. destruct prot; cbn [fst snd marks]; [now apply wt_mark|apply wt_refl]. Qed.
 
   Lemma dispatch_wtrans W prot s e q t body :
     (N.to_nat e < length (r_wins s))%nat ->
     check (fst (get_win W e (r_wins s))) (snd (get_win W e (r_wins s))) q = true ->
-    prot = true \/ e = 0 ->
     wtrans W s (marks (snd (dispatch W prot s e q t body))) (fst (dispatch W prot s e q t body)).
   Proof.
-    intros Hl Hc Hp. unfold Rec13.dispatch.
-    assert (Hm : wtrans W s [(e, q)] (mark W prot s e q)) by now apply wt_mark.
+    intros Hl Hc. unfold Rec13.dispatch. pose proof (commit_wtrans W prot s e q Hl Hc) as Hm.
+    set (c := commit W prot s e q) in *. cbv zeta.
     destruct (t =? 22).
     { destruct (r_estab s && (e =? 0)); [apply wt_refl|].
-      destruct (hs_ok hs_room body); cbn [fst snd marks]; [exact Hm|apply wt_refl]. }
+      destruct (hs_ok hs_room body); cbn [fst snd]; [|apply wt_refl].
+      rewrite marks_app. cbn [marks]. rewrite app_nil_r. exact Hm. }
     destruct (decode_content t body) as [p | level desc | | | ].
-    - destruct (e =? 0); cbn [fst snd marks]; [apply wt_refl|exact Hm].
+    - destruct (e =? 0); [apply wt_refl|]. destruct (r_estab s); cbn [fst snd].
+      + rewrite marks_app. cbn [marks]. rewrite app_nil_r. exact Hm.
+      + destruct (Nat.ltb (length (r_early s)) max_queue); cbn [fst snd]; [|exact Hm].
+        rewrite marks_app. cbn [marks]. rewrite app_nil_r. eapply wt_then_other; [exact Hm|reflexivity|reflexivity].
     - destruct (r_estab s && (e =? 0)); [apply wt_refl|].
-      destruct ((level =? 2) || (desc =? 0)); destruct (desc =? 0); cbn [fst snd marks app];
-        try exact Hm; (apply (wt_mark_then W s prot e q); auto; apply wt_closed).
-    - destruct (e =? 0); cbn [fst snd marks]; [apply wt_refl|exact Hm].
-    - destruct ((e =? 0) || negb (r_rrc s)); cbn [fst snd marks]; [apply wt_refl|exact Hm].
+      destruct ((level =? 2) || (desc =? 0)); destruct (desc =? 0); cbn [fst snd app];
+        rewrite marks_app; cbn [marks]; rewrite app_nil_r; try exact Hm;
+        (eapply wt_then_other; [exact Hm|reflexivity|reflexivity]).
+    - destruct (e =? 0); cbn [fst snd]; [apply wt_refl|].
+      rewrite marks_app. cbn [marks]. rewrite app_nil_r. exact Hm.
+    - destruct ((e =? 0) || negb (r_rrc s)); cbn [fst snd marks]; [apply wt_refl|].
+      rewrite marks_app. cbn [marks]. rewrite app_nil_r. exact Hm.
     - destruct (e =? 0); cbn [fst snd marks]; apply wt_refl.
   Qed.
 
@@ -588,7 +593,7 @@ Section Recv.
         destruct (check mx w q) eqn:Ec; cbn [negb]; [|exact H1].
         destruct (maxseq48 <? q); [exact H1|].
         change (marks (snd (dispatch W true s1 e q t body))) with ([] ++ marks (snd (dispatch W true s1 e q t body))).
-        eapply wt_trans; [exact H1|]. apply dispatch_wtrans; [exact Hl| |now left].
+        eapply wt_trans; [exact H1|]. apply dispatch_wtrans; [exact Hl|].
         rewrite Eg. exact Ec.
       + cbn [fst snd marks]. destruct (queueable_epoch (u_elow h) (r_epoch s)); [apply wt_enqueue|apply wt_refl].
       + apply wt_refl.
@@ -606,7 +611,7 @@ Section Recv.
       destruct (e =? 0) eqn:E0.
       + change (marks (snd (dispatch W false s1 e q (hd 0 (c :: b')) (skipn 13 (c :: b')))))
           with ([] ++ marks (snd (dispatch W false s1 e q (hd 0 (c :: b')) (skipn 13 (c :: b'))))).
-        eapply wt_trans; [exact H1|]. apply dispatch_wtrans; [exact Hl| |right; lia].
+        eapply wt_trans; [exact H1|]. apply dispatch_wtrans; [exact Hl|].
         rewrite Eg. exact Ec.
       + destruct (negb (has_prot s1)); cbn [fst snd marks]; [|exact H1].
         change (@nil (N * N)) with (@nil (N * N) ++ []). eapply wt_trans; [exact H1|apply wt_enqueue].
@@ -623,6 +628,15 @@ Section Recv.
     rewrite marks_app. eapply wt_trans; eauto.
   Qed.
 
+  Definition early_out (l : list (bytes * N * N)) : list out :=
+    map (fun x : bytes * N * N => OEarly (fst (fst x)) (snd (fst x)) (snd x)) l.
+
+  Lemma marks_early l : marks (early_out l) = [].
+  Proof. induction l as [|x l IH]; cbn; auto. Qed.
+
+  Lemma deliveries_early l : deliveries (early_out l) = [].
+  Proof. induction l as [|x l IH]; cbn; auto. Qed.
+
   Lemma step_wtrans W s o : wtrans W s (marks (snd (step W s o))) (fst (step W s o)).
   Proof.
     destruct o as [d | e | e | | cid neg rrc | ]; cbn [Rec13.step].
@@ -630,7 +644,7 @@ Section Recv.
       destruct (unpack_datagram13 s d) as [rs|]; [apply recv_list_wtrans|apply wt_refl].
     - cbn [fst snd marks]. now apply wt_other.
     - cbn [fst snd marks]. now apply wt_other.
-    - cbn [fst snd marks]. now apply wt_other.
+    - cbn [fst snd]. fold (early_out (r_early s)). rewrite marks_early. now apply wt_other.
     - cbn [fst snd marks]. now apply wt_other.
     - destruct (r_closed s); [apply wt_refl|].
       change (marks (snd (recv_list W false (with_queue s []) (r_queue s))))
@@ -655,22 +669,22 @@ Section Recv.
     snd (accept mx w q) = ((latest w <? q) || (q =? 0)).
   Proof. unfold accept. destruct (latest w <? q); cbn; auto. Qed.
 
-  Lemma mark_wins W prot s e q :
-    r_wins (mark W prot s e q) =
+  Lemma mark_wins W s e q :
+    r_wins (mark W s e q) =
     set_win e (fst (get_win W e (r_wins s)),
                fst (accept (fst (get_win W e (r_wins s))) (snd (get_win W e (r_wins s))) q)) (r_wins s).
   Proof.
     unfold mark. destruct (get_win W e (r_wins s)) as [mx w]. cbn [fst snd].
-    destruct (accept mx w q) as [w' isl]. cbn [fst]. destruct (prot && isl); reflexivity.
+    destruct (accept mx w q) as [w' isl]. cbn [fst]. destruct isl; reflexivity.
   Qed.
 
-  Lemma mark_high W prot s e q :
-    r_high (mark W prot s e q) =
-    if prot && snd (accept (fst (get_win W e (r_wins s))) (snd (get_win W e (r_wins s))) q)
+  Lemma mark_high W s e q :
+    r_high (mark W s e q) =
+    if snd (accept (fst (get_win W e (r_wins s))) (snd (get_win W e (r_wins s))) q)
     then update_high e q (r_high s) else r_high s.
   Proof.
     unfold mark. destruct (get_win W e (r_wins s)) as [mx w]. cbn [fst snd].
-    destruct (accept mx w q) as [w' isl]. cbn [snd]. destruct (prot && isl); reflexivity.
+    destruct (accept mx w q) as [w' isl]. cbn [snd]. destruct isl; reflexivity.
   Qed.
 
   (* every epoch's detector refines the set of numbers committed for that epoch; its bound is one
@@ -697,7 +711,7 @@ Section Recv.
   Lemma GI_wtrans W : N.of_nat W <= maxseq48 -> forall s m s', wtrans W s m s' ->
     forall ms, GI W s ms -> GI W s' (ms ++ m).
   Proof.
-    intros HW s m s' Ht. induction Ht as [s s' Hw Hh | s mx e Hmx | s prot e q Hl Hc Hp | s1 m1 s2 m2 s3 H1 IH1 H2 IH2];
+    intros HW s m s' Ht. induction Ht as [s s' Hw Hh | s mx e Hmx | s e q Hl Hc | s1 m1 s2 m2 s3 H1 IH1 H2 IH2];
       intros ms [Hnd Hinv].
     - rewrite app_nil_r. split; [exact Hnd|]. now rewrite Hw.
     - rewrite app_nil_r. split; [exact Hnd|]. intro e2. cbn [r_wins with_wins].
@@ -731,27 +745,26 @@ Section Recv.
 
   Lemma HI_wtrans W s m s' : wtrans W s m s' -> HI W s -> HI W s'.
   Proof.
-    intro Ht. induction Ht as [s s' Hw Hh | s mx e Hmx | s prot e q Hl Hc Hp | s1 m1 s2 m2 s3 H1 IH1 H2 IH2]; intro HH.
+    intro Ht. induction Ht as [s s' Hw Hh | s mx e Hmx | s e q Hl Hc | s1 m1 s2 m2 s3 H1 IH1 H2 IH2]; intro HH.
     - intros e He. rewrite Hw, Hh. now apply HH.
     - intros e2 He. cbn [r_wins r_high with_wins]. rewrite get_win_ensure. now apply HH.
     - intros e2 He. rewrite mark_wins, mark_high.
       destruct (N.eq_dec e2 e) as [-> | Hne].
       + rewrite get_set_win_same by exact Hl. cbn [snd].
-        destruct Hp as [-> | ->]; [|lia].
         destruct (accept_latest (fst (get_win W e (r_wins s))) (snd (get_win W e (r_wins s))) q) as [-> ->].
-        specialize (HH e He). cbn [andb].
+        specialize (HH e He).
         destruct (latest (snd (get_win W e (r_wins s))) <? q) eqn:E; cbn [orb].
         * rewrite get_high_update_same. lia.
         * destruct (q =? 0) eqn:E0; [rewrite get_high_update_same; lia|exact HH].
       + rewrite get_set_win_other by exact Hne.
-        destruct (prot && _); [rewrite get_high_update_other by exact Hne|]; now apply HH.
+        destruct (snd (accept _ _ q)); [rewrite get_high_update_other by exact Hne|]; now apply HH.
     - auto.
   Qed.
 
   Lemma latest_mono_wtrans W s m s' : wtrans W s m s' ->
     forall e, latest (snd (get_win W e (r_wins s))) <= latest (snd (get_win W e (r_wins s'))).
   Proof.
-    intro Ht. induction Ht as [s s' Hw Hh | s mx e Hmx | s prot e q Hl Hc Hp | s1 m1 s2 m2 s3 H1 IH1 H2 IH2]; intro e2.
+    intro Ht. induction Ht as [s s' Hw Hh | s mx e Hmx | s e q Hl Hc | s1 m1 s2 m2 s3 H1 IH1 H2 IH2]; intro e2.
     - rewrite Hw. lia.
     - cbn [r_wins with_wins]. rewrite get_win_ensure. lia.
     - rewrite mark_wins. destruct (N.eq_dec e2 e) as [-> | Hne].
@@ -798,45 +811,79 @@ Section Recv.
     destruct (t =? 27); [destruct (rrc_ok body); discriminate|discriminate].
   Qed.
 
+  Ltac in_list H :=
+    cbn in H;
+    repeat match type of H with
+           | _ \/ _ => destruct H as [H | H]
+           | False => destruct H
+           end;
+    try discriminate H.
+
+  Lemma commit_deliveries W prot s e q : deliveries (snd (commit W prot s e q)) = [].
+  Proof. unfold commit. destruct prot; reflexivity. Qed.
+
+  Lemma commit_marks W prot s e q : marks (snd (commit W prot s e q)) = if prot then [(e, q)] else [].
+  Proof. unfold commit. destruct prot; reflexivity. Qed.
+
+  Lemma commit_estab W prot s e q :
+    r_estab (fst (commit W prot s e q)) = r_estab s /\ r_early (fst (commit W prot s e q)) = r_early s /\
+    r_queue (fst (commit W prot s e q)) = r_queue s /\ r_closed (fst (commit W prot s e q)) = r_closed s.
+  Proof.
+    unfold commit. destruct prot; cbn [fst]; [|auto]. unfold mark.
+    destruct (get_win W e (r_wins s)) as [mx w]. destruct (accept mx w q) as [w' isl]. destruct isl; cbn; auto.
+  Qed.
+
+  (* application data is accepted for Read iff it is protected and - before the local handshake has
+     completed - the parking area (100 payloads) has room *)
+  Definition room (s : rstate) : bool := r_estab s || Nat.ltb (length (r_early s)) max_queue.
+
   Lemma dispatch_deliveries W prot s e q t body :
     deliveries (snd (dispatch W prot s e q t body)) =
-    if (t =? 23) && negb (e =? 0) then [(body, e, q)] else [].
+    if (t =? 23) && negb (e =? 0) && room s then [(body, e, q)] else [].
   Proof.
     clear snmask aopen.
-    unfold Rec13.dispatch. destruct (t =? 22) eqn:E22.
+    unfold Rec13.dispatch. cbv zeta. destruct (t =? 22) eqn:E22.
     { assert (t =? 23 = false) by lia. rewrite H. destruct (r_estab s && (e =? 0)); [reflexivity|].
-      destruct (hs_ok hs_room body); reflexivity. }
+      destruct (hs_ok hs_room body); cbn [fst snd]; [|reflexivity].
+      now rewrite deliveries_app, commit_deliveries. }
     destruct (decode_content t body) as [p | level desc | | | ] eqn:Ed.
-    - apply decode_app in Ed. destruct Ed as [-> ->]. cbn [N.eqb Pos.eqb andb].
-      destruct (e =? 0); reflexivity.
+    - apply decode_app in Ed. destruct Ed as [-> ->]. cbn [N.eqb Pos.eqb andb]. unfold room.
+      destruct (e =? 0); [reflexivity|]. cbn [negb andb]. destruct (r_estab s); cbn [orb fst snd].
+      + now rewrite deliveries_app, commit_deliveries.
+      + destruct (Nat.ltb (length (r_early s)) max_queue); cbn [fst snd].
+        * now rewrite deliveries_app, commit_deliveries.
+        * apply commit_deliveries.
     - assert (t =? 23 = false).
       { unfold decode_content in Ed. destruct (t =? 21) eqn:E1; [lia|]. destruct (t =? 23); [discriminate|reflexivity]. }
       rewrite H. cbn [andb]. destruct (r_estab s && (e =? 0)); [reflexivity|].
-      destruct ((level =? 2) || (desc =? 0)); destruct (desc =? 0); reflexivity.
+      destruct ((level =? 2) || (desc =? 0)); destruct (desc =? 0); cbn [fst snd app];
+        now rewrite deliveries_app, commit_deliveries.
     - assert (t =? 23 = false).
       { unfold decode_content in Ed. destruct (t =? 21) eqn:E1; [lia|]. destruct (t =? 23); [discriminate|reflexivity]. }
-      rewrite H. destruct (e =? 0); reflexivity.
+      rewrite H. destruct (e =? 0); cbn [fst snd]; [reflexivity|]. now rewrite deliveries_app, commit_deliveries.
     - assert (t =? 23 = false).
       { unfold decode_content in Ed. destruct (t =? 21) eqn:E1; [lia|]. destruct (t =? 23); [discriminate|reflexivity]. }
-      rewrite H. destruct ((e =? 0) || negb (r_rrc s)); reflexivity.
+      rewrite H. destruct ((e =? 0) || negb (r_rrc s)); cbn [fst snd]; [reflexivity|]. now rewrite deliveries_app, commit_deliveries.
     - assert (t =? 23 = false).
       { unfold decode_content in Ed. destruct (t =? 21) eqn:E1; [lia|]. destruct (t =? 23); [discriminate|reflexivity]. }
       rewrite H. destruct (e =? 0); reflexivity.
   Qed.
 
+  (* a commit happens for protected records only: an unprotected record never moves a replay window *)
   Lemma dispatch_marks W prot s e q t body e' q' :
-    In (e', q') (marks (snd (dispatch W prot s e q t body))) -> e' = e /\ q' = q.
+    In (e', q') (marks (snd (dispatch W prot s e q t body))) -> e' = e /\ q' = q /\ prot = true.
   Proof.
-    unfold Rec13.dispatch. destruct (t =? 22).
+    unfold Rec13.dispatch, commit. cbv zeta. destruct (t =? 22).
     { destruct (r_estab s && (e =? 0)); [intros []|].
-      destruct (hs_ok hs_room body); cbn; [intros [H | []]; now inversion H | intros []]. }
+      destruct (hs_ok hs_room body); destruct prot; intro H; in_list H; now inversion H. }
     destruct (decode_content t body) as [p | level desc | | | ].
-    - destruct (e =? 0); cbn; [intros [] | intros [H | []]; now inversion H].
+    - destruct (e =? 0); [intros []|]. destruct (r_estab s); [|destruct (Nat.ltb (length (r_early s)) max_queue)];
+        destruct prot; intro H; in_list H; now inversion H.
     - destruct (r_estab s && (e =? 0)); [intros []|].
-      destruct ((level =? 2) || (desc =? 0)); destruct (desc =? 0); cbn; intros [H | []]; now inversion H.
-    - destruct (e =? 0); cbn; [intros [] | intros [H | []]; now inversion H].
-    - destruct ((e =? 0) || negb (r_rrc s)); cbn; [intros [] | intros [H | []]; now inversion H].
-    - destruct (e =? 0); cbn; intros [].
+      destruct ((level =? 2) || (desc =? 0)); destruct (desc =? 0); destruct prot; intro H; in_list H; now inversion H.
+    - destruct (e =? 0); [intros []|]. destruct prot; intro H; in_list H; now inversion H.
+    - destruct ((e =? 0) || negb (r_rrc s)); [intros []|]. destruct prot; intro H; in_list H; now inversion H.
+    - destruct (e =? 0); intros H; in_list H.
   Qed.
 
   (* exactly what a ciphertext record delivers to Read *)
@@ -847,7 +894,7 @@ Section Recv.
         if has_prot s &&
            check (fst (get_win W e (ensure_wins W maxseq64 e (r_wins s))))
                  (snd (get_win W e (ensure_wins W maxseq64 e (r_wins s)))) q &&
-           (q <=? maxseq48) && (t =? 23) && negb (e =? 0)
+           (q <=? maxseq48) && (t =? 23) && negb (e =? 0) && room s
         then [(body, e, q)] else []
     | None => []
     end.
@@ -862,7 +909,7 @@ Section Recv.
     destruct (check mx w q); cbn [negb andb]; [|reflexivity].
     destruct (maxseq48 <? q) eqn:E; [assert (Hq : q <=? maxseq48 = false) by lia; now rewrite Hq|].
     assert (Hq : q <=? maxseq48 = true) by lia. rewrite Hq. cbn [andb].
-    apply dispatch_deliveries.
+    rewrite dispatch_deliveries. reflexivity.
   Qed.
 
   (* an unprotected (legacy header) record never delivers application data *)
@@ -877,7 +924,7 @@ Section Recv.
     destruct (get_win W _ _) as [mx w].
     destruct (negb (check mx w _)); [reflexivity|].
     destruct (_ =? 0) eqn:E0.
-    - rewrite dispatch_deliveries. rewrite E0. now rewrite andb_false_r.
+    - rewrite dispatch_deliveries. rewrite E0. cbn [negb]. now rewrite andb_false_r.
     - destruct (negb (has_prot _)); reflexivity.
   Qed.
 
@@ -951,7 +998,8 @@ Section Recv.
     destruct (check _ _ q'); [|intros []]. cbn [andb].
     destruct (q' <=? maxseq48) eqn:Eq; [|intros []]. cbn [andb].
     destruct (t =? 23) eqn:Et; [|intros []]. cbn [andb].
-    destruct (e' =? 0) eqn:E0; [intros []|]. cbn [negb].
+    destruct (e' =? 0) eqn:E0; [intros []|]. cbn [negb andb].
+    destruct (room s); [|intros []].
     intros [H | []]. inversion H; subst. assert (t = 23) by lia. subst t.
     repeat split; auto; lia.
   Qed.
@@ -965,11 +1013,12 @@ Section Recv.
     destruct (open_record s h ct) as [body t q' e' | | ]; [|intros []|intros []].
     destruct (get_win W e' _) as [mx w]. destruct (negb (check mx w q')); [intros []|].
     destruct (maxseq48 <? q'); [intros []|].
-    intro H. apply dispatch_marks in H. destruct H as [-> ->]. now exists body, t.
+    intro H. apply dispatch_marks in H. destruct H as (-> & -> & _). now exists body, t.
   Qed.
 
+  (* an unprotected record never commits a replay slot *)
   Lemma recv_legacy_marks W lease s b e q :
-    In (e, q) (marks (snd (recv_legacy W lease s b))) -> e = 0.
+    In (e, q) (marks (snd (recv_legacy W lease s b))) -> False.
   Proof.
     unfold Rec13.recv_legacy.
     destruct (length b <? 13)%nat; [intros []|].
@@ -978,17 +1027,23 @@ Section Recv.
     destruct (get_win W _ _) as [mx w].
     destruct (negb (check mx w _)); [intros []|].
     destruct (_ =? 0) eqn:E0.
-    - intro H. apply dispatch_marks in H. destruct H as [-> _]. lia.
+    - intro H. apply dispatch_marks in H. destruct H as (_ & _ & H). discriminate H.
     - destruct (negb (has_prot _)); intros [].
   Qed.
 
   (* ---------------------------------------------------------------- every output has a record behind it *)
 
-  Lemma in_deliveries os p e q : In (p, e, q) (deliveries os) <-> In (ODeliver p e q) os.
+  Lemma in_deliveries os p e q :
+    In (p, e, q) (deliveries os) <-> In (ODeliver p e q) os \/ In (OPark p e q) os.
   Proof.
-    induction os as [|o os IH]; [reflexivity|].
-    destruct o; cbn [deliveries In]; rewrite ?IH; try (split; [intro H; now right | intros [H | H]; [discriminate|exact H]]).
-    split; intros [H | H]; auto; left; now inversion H.
+    induction os as [|o os IH]; [cbn; tauto|].
+    destruct o; cbn [deliveries In]; rewrite ?IH;
+      try (split; [intros [H | H]; [left|right]; now right
+                  | intros [[H | H] | [H | H]]; try discriminate; [now left|now right]]).
+    - split; [intros [H | [H | H]]; [inversion H; subst; left; now left|left; now right|right; now right]
+             |intros [[H | H] | [H | H]]; try discriminate; [inversion H; now left|right; now left|right; now right]].
+    - split; [intros [H | [H | H]]; [inversion H; subst; right; now left|left; now right|right; now right]
+             |intros [[H | H] | [H | H]]; try discriminate; [right; now left|inversion H; now left|right; now right]].
   Qed.
 
   Lemma in_marks os e q : In (e, q) (marks os) <-> In (OMark e q) os.
@@ -1010,20 +1065,28 @@ Section Recv.
       apply (IH s1). now rewrite E2.
   Qed.
 
+  Definition is_early (o : out) : bool := match o with OEarly _ _ _ => true | _ => false end.
+
+  Lemma early_out_is l o : In o (early_out l) -> is_early o = true.
+  Proof. unfold early_out. rewrite in_map_iff. intros (x & <- & _). reflexivity. Qed.
+
+  (* every output of a history is the output of one record, except the parked payloads Read returns
+     when the handshake completes *)
   Lemma run_origin W o : forall ops s,
-    In o (snd (run_ops W s ops)) -> exists lease s' r, In o (snd (recv_record W lease s' r)).
+    In o (snd (run_ops W s ops)) -> is_early o = false ->
+    exists lease s' r, In o (snd (recv_record W lease s' r)).
   Proof.
-    induction ops as [|op ops IH]; intros s H; [destruct H|].
+    induction ops as [|op ops IH]; intros s H Hne; [destruct H|].
     cbn [Rec13.run_ops] in H. destruct (step W s op) as [s1 o1] eqn:E1.
     destruct (run_ops W s1 ops) as [s2 o2] eqn:E2. cbn [snd] in H. apply in_app_iff in H.
-    destruct H as [H | H]; [|apply (IH s1); now rewrite E2].
+    destruct H as [H | H]; [|apply (IH s1); [now rewrite E2|exact Hne]].
     destruct op as [d | e | e | | cid neg rrc | ]; cbn [Rec13.step] in E1.
     - unfold Rec13.recv13 in E1. destruct (r_closed s); [inversion E1; subst; destruct H|].
       destruct (unpack_datagram13 s d) as [rs|]; [|inversion E1; subst; destruct H].
       exists true. apply (recv_list_origin W true o rs s). now rewrite E1.
     - inversion E1; subst; destruct H.
     - inversion E1; subst; destruct H.
-    - inversion E1; subst; destruct H.
+    - inversion E1; subst. apply early_out_is in H. congruence.
     - inversion E1; subst; destruct H.
     - destruct (r_closed s); [inversion E1; subst; destruct H|].
       exists false. apply (recv_list_origin W false o (r_queue s) (with_queue s [])). now rewrite E1.
@@ -1039,15 +1102,15 @@ Section Recv.
 
   (* ---------------------------------------------------------------- C06: one delivery per commit *)
 
-  Lemma dispatch_deliver_marks W prot s e q t body :
+  Lemma dispatch_deliver_marks W prot s e q t body : prot = true ->
     deliveries (snd (dispatch W prot s e q t body)) = [] \/
     (deliveries (snd (dispatch W prot s e q t body)) = [(body, e, q)] /\
      marks (snd (dispatch W prot s e q t body)) = [(e, q)]).
   Proof.
-    rewrite dispatch_deliveries. destruct ((t =? 23) && negb (e =? 0)) eqn:E; [|now left].
-    right. split; [reflexivity|]. apply andb_prop in E. destruct E as [E1 E2].
-    assert (t = 23) by lia. subst t. unfold Rec13.dispatch. cbn [N.eqb Pos.eqb decode_content].
-    destruct (e =? 0); [discriminate|reflexivity].
+    intros ->. rewrite dispatch_deliveries. destruct ((t =? 23) && negb (e =? 0) && room s) eqn:E; [|now left].
+    right. split; [reflexivity|]. apply andb_prop in E. destruct E as [E Er]. apply andb_prop in E. destruct E as [E1 E2].
+    assert (t = 23) by lia. subst t. unfold Rec13.dispatch, commit, room in *. cbv zeta. cbn [N.eqb Pos.eqb decode_content].
+    destruct (e =? 0); [discriminate|]. destruct (r_estab s); [reflexivity|]. cbn [orb] in Er. rewrite Er. reflexivity.
   Qed.
 
   Lemma recv_record_deliver_marks W lease s b :
@@ -1061,7 +1124,7 @@ Section Recv.
     destruct (open_record s h ct) as [body t q e | | ]; [|exact I|exact I].
     destruct (get_win W e _) as [mx w]. destruct (negb (check mx w q)); [exact I|].
     destruct (maxseq48 <? q); [exact I|].
-    destruct (dispatch_deliver_marks W true (with_wins s (ensure_wins W maxseq64 e (r_wins s))) e q t body) as [-> | [-> ->]].
+    destruct (dispatch_deliver_marks W true (with_wins s (ensure_wins W maxseq64 e (r_wins s))) e q t body eq_refl) as [-> | [-> ->]].
     - apply RecvSound.sublist_nil_l.
     - cbn. auto.
   Qed.
@@ -1086,6 +1149,7 @@ Section Recv.
     { destruct o as [d | e | e | | cid neg rrc | ]; cbn [Rec13.step]; try exact I.
       - unfold Rec13.recv13. destruct (r_closed s); [exact I|].
         destruct (unpack_datagram13 s d); [apply recv_list_deliver_marks|exact I].
+      - cbn [snd]. fold (early_out (r_early s)). rewrite deliveries_early. apply RecvSound.sublist_nil_l.
       - destruct (r_closed s); [exact I|apply recv_list_deliver_marks]. }
     destruct (step W s o) as [s1 o1]. cbn [snd] in H1.
     specialize (IH s1). destruct (run_ops W s1 ops) as [s2 o2]. cbn [snd] in *.
@@ -1099,6 +1163,22 @@ Section Recv.
     intro HW. eapply RecvSound.sublist_NoDup; [apply run_deliver_marks | now apply marks_nodup].
   Qed.
 
+  Lemma dispatch_queue W prot s e q t body : r_queue (fst (dispatch W prot s e q t body)) = r_queue s.
+  Proof.
+    destruct (commit_estab W prot s e q) as (_ & _ & Hq & _).
+    unfold Rec13.dispatch. cbv zeta. destruct (t =? 22).
+    - destruct (r_estab s && (e =? 0)); [reflexivity|].
+      destruct (hs_ok hs_room body); cbn [fst]; [exact Hq|reflexivity].
+    - destruct (decode_content t body) as [p | level desc | | | ].
+      + destruct (e =? 0); [reflexivity|]. destruct (r_estab s); cbn [fst]; [exact Hq|].
+        destruct (Nat.ltb (length (r_early s)) max_queue); cbn [fst with_early r_queue]; exact Hq.
+      + destruct (r_estab s && (e =? 0)); [reflexivity|].
+        destruct ((level =? 2) || (desc =? 0)); cbn [fst with_closed r_queue]; exact Hq.
+      + destruct (e =? 0); cbn [fst]; [reflexivity|exact Hq].
+      + destruct ((e =? 0) || negb (r_rrc s)); cbn [fst]; [reflexivity|exact Hq].
+      + destruct (e =? 0); reflexivity.
+  Qed.
+
   (* ---------------------------------------------------------------- the parked queue is bounded *)
 
   Lemma recv_record_queue W lease s b :
@@ -1107,20 +1187,8 @@ Section Recv.
     assert (Henq : forall s0, (length (r_queue (enqueue lease s0 b)) <= Nat.max (length (r_queue s0)) max_queue)%nat).
     { intro s0. destruct (enqueue_spec lease s0 b) as [_ [-> | (-> & Hl & _)]]; [lia|].
       rewrite app_length. cbn [length]. unfold max_queue in *. lia. }
-    assert (Hmark : forall prot s0 e q, r_queue (mark W prot s0 e q) = r_queue s0).
-    { intros prot s0 e q. unfold mark. destruct (get_win W e (r_wins s0)) as [mx w].
-      destruct (accept mx w q) as [w' isl]. destruct (prot && isl); reflexivity. }
-    assert (Hdisp : forall prot s0 e q t body, r_queue (fst (dispatch W prot s0 e q t body)) = r_queue s0).
-    { intros prot s0 e q t body. unfold Rec13.dispatch. destruct (t =? 22).
-      - destruct (r_estab s0 && (e =? 0)); [reflexivity|].
-        destruct (hs_ok hs_room body); cbn [fst]; [apply Hmark|reflexivity].
-      - destruct (decode_content t body) as [p | level desc | | | ].
-        + destruct (e =? 0); cbn [fst]; [reflexivity|apply Hmark].
-        + destruct (r_estab s0 && (e =? 0)); [reflexivity|].
-          destruct ((level =? 2) || (desc =? 0)); cbn [fst with_closed r_queue]; apply Hmark.
-        + destruct (e =? 0); cbn [fst]; [reflexivity|apply Hmark].
-        + destruct ((e =? 0) || negb (r_rrc s0)); cbn [fst]; [reflexivity|apply Hmark].
-        + destruct (e =? 0); reflexivity. }
+    assert (Hdisp : forall prot s0 e q t body, r_queue (fst (dispatch W prot s0 e q t body)) = r_queue s0)
+      by (intros; apply dispatch_queue).
     unfold Rec13.recv_record. destruct b as [|c b']; [cbn; lia|].
     destruct (is_ct13 c).
     - unfold Rec13.recv_cipher. destruct (parse_crec s (c :: b')) as [[h ct]|]; [|cbn; lia].
@@ -1195,27 +1263,31 @@ Section Recv.
   Lemma keys_same_trans a b c : keys_same a b -> keys_same b c -> keys_same a c.
   Proof. unfold keys_same. intuition congruence. Qed.
 
-  Lemma keys_same_mark W prot s e q : keys_same s (mark W prot s e q).
+  Lemma keys_same_commit W prot s e q : keys_same s (fst (commit W prot s e q)).
   Proof.
+    unfold commit. destruct prot; cbn [fst]; [|apply keys_same_refl].
     unfold mark. destruct (get_win W e (r_wins s)) as [mx w]. destruct (accept mx w q) as [w' isl].
-    destruct (prot && isl); unfold keys_same; cbn; auto 10.
+    destruct isl; unfold keys_same; cbn; auto 10.
   Qed.
 
   Lemma keys_same_enqueue lease s b : keys_same s (enqueue lease s b).
-  Proof. destruct (enqueue_spec lease s b) as [(H1 & H2 & H3 & H4 & H5 & H6 & H7 & H8 & H9 & H10) _]. unfold keys_same. auto 10. Qed.
+  Proof. destruct (enqueue_spec lease s b) as [(H1 & H2 & H3 & H4 & H5 & H6 & H7 & H8 & H9 & H10 & H11) _]. unfold keys_same. auto 10. Qed.
 
   Lemma keys_same_dispatch W prot s e q t body : keys_same s (fst (dispatch W prot s e q t body)).
   Proof.
-    unfold Rec13.dispatch. destruct (t =? 22).
+    pose proof (keys_same_commit W prot s e q) as Hc.
+    unfold Rec13.dispatch. cbv zeta. destruct (t =? 22).
     - destruct (r_estab s && (e =? 0)); [apply keys_same_refl|].
-      destruct (hs_ok hs_room body); cbn [fst]; [apply keys_same_mark|apply keys_same_refl].
+      destruct (hs_ok hs_room body); cbn [fst]; [exact Hc|apply keys_same_refl].
     - destruct (decode_content t body) as [p | level desc | | | ].
-      + destruct (e =? 0); cbn [fst]; [apply keys_same_refl|apply keys_same_mark].
+      + destruct (e =? 0); [apply keys_same_refl|]. destruct (r_estab s); cbn [fst]; [exact Hc|].
+        destruct (Nat.ltb (length (r_early s)) max_queue); cbn [fst]; [|exact Hc].
+        eapply keys_same_trans; [exact Hc|]. unfold keys_same; cbn; auto 10.
       + destruct (r_estab s && (e =? 0)); [apply keys_same_refl|].
-        destruct ((level =? 2) || (desc =? 0)); cbn [fst]; [|apply keys_same_mark].
-        eapply keys_same_trans; [apply keys_same_mark|]. unfold keys_same; cbn; auto 10.
-      + destruct (e =? 0); cbn [fst]; [apply keys_same_refl|apply keys_same_mark].
-      + destruct ((e =? 0) || negb (r_rrc s)); cbn [fst]; [apply keys_same_refl|apply keys_same_mark].
+        destruct ((level =? 2) || (desc =? 0)); cbn [fst]; [|exact Hc].
+        eapply keys_same_trans; [exact Hc|]. unfold keys_same; cbn; auto 10.
+      + destruct (e =? 0); cbn [fst]; [apply keys_same_refl|exact Hc].
+      + destruct ((e =? 0) || negb (r_rrc s)); cbn [fst]; [apply keys_same_refl|exact Hc].
       + destruct (e =? 0); apply keys_same_refl.
   Qed.
 
@@ -1290,53 +1362,63 @@ Section Recv.
      connection with keys, is delivered exactly when its own epoch's replay detector accepts the
      rebuilt record number (and the number fits the 48 bits of the re-marshalled header) *)
   Theorem authentic_delivered_iff_window W lease s b p q e :
-    auth_cipher s b = Some (p, 23, q, e) -> has_prot s = true -> e <> 0 -> q <= maxseq48 ->
+    auth_cipher s b = Some (p, 23, q, e) -> has_prot s = true -> e <> 0 -> q <= maxseq48 -> room s = true ->
     deliveries (snd (recv_cipher W lease s b)) =
     if check (fst (get_win W e (ensure_wins W maxseq64 e (r_wins s))))
              (snd (get_win W e (ensure_wins W maxseq64 e (r_wins s)))) q
     then [(p, e, q)] else [].
   Proof.
-    intros Ha Hp He Hq. rewrite cipher_deliveries, Ha, Hp. cbn [andb].
+    intros Ha Hp He Hq Hr. rewrite cipher_deliveries, Ha, Hp. cbn [andb].
     destruct (check _ _ q); [|reflexivity]. cbn [andb].
     assert (H1 : q <=? maxseq48 = true) by lia. assert (H2 : e =? 0 = false) by lia.
-    rewrite H1, H2. reflexivity.
+    rewrite H1, H2, Hr. reflexivity.
+  Qed.
+
+  Lemma decode_ack t body : decode_content t body = CAck -> t = 26.
+  Proof.
+    clear snmask aopen hs_room.
+    unfold decode_content. destruct (t =? 21) eqn:E1.
+    { destruct body as [|l [|d [|x body]]]; discriminate. }
+    destruct (t =? 23); [discriminate|].
+    destruct (t =? 26) eqn:E26; [intros _; lia|].
+    destruct (t =? 27); [destruct (rrc_ok body); discriminate|discriminate].
   Qed.
 
   Lemma dispatch_acks W prot s e q t body e' q' body' :
-    In (OAck e' q' body') (snd (dispatch W prot s e q t body)) -> e' = e /\ q' = q /\ body' = body /\ e <> 0.
+    In (OAck e' q' body') (snd (dispatch W prot s e q t body)) ->
+    e' = e /\ q' = q /\ body' = body /\ e <> 0 /\ t = 26.
   Proof.
-    unfold Rec13.dispatch. destruct (t =? 22).
+    unfold Rec13.dispatch, commit. cbv zeta. destruct (t =? 22).
     { destruct (r_estab s && (e =? 0)); [intros []|].
-      destruct (hs_ok hs_room body); cbn; [intros [H | [H | []]]; discriminate | intros []]. }
-    destruct (decode_content t body) as [p | level desc | | | ].
-    - destruct (e =? 0); cbn; [intros [H | [H | []]]; discriminate | intros [H | [H | []]]; discriminate].
+      destruct (hs_ok hs_room body); destruct prot; intro H; in_list H. }
+    destruct (decode_content t body) as [p | level desc | | | ] eqn:Ed.
+    - destruct (e =? 0); [intros []|]. destruct (r_estab s); [|destruct (Nat.ltb (length (r_early s)) max_queue)];
+        destruct prot; intro H; in_list H.
     - destruct (r_estab s && (e =? 0)); [intros []|].
-      destruct ((level =? 2) || (desc =? 0)); destruct (desc =? 0); cbn;
-        intros H; repeat (destruct H as [H | H]; [discriminate|]); destruct H.
-    - destruct (e =? 0) eqn:E0; cbn; [intros []|].
-      intros [H | [H | []]]; [discriminate|]. inversion H; subst. repeat split; auto. lia.
-    - destruct ((e =? 0) || negb (r_rrc s)); cbn; intros H; repeat (destruct H as [H | H]; [discriminate|]); destruct H.
-    - destruct (e =? 0); cbn; [intros [] | intros [H | [H | []]]; discriminate].
+      destruct ((level =? 2) || (desc =? 0)); destruct (desc =? 0); destruct prot; intro H; in_list H.
+    - apply decode_ack in Ed. destruct (e =? 0) eqn:E0; [intros []|].
+      destruct prot; intro H; in_list H; inversion H; subst; repeat split; auto; lia.
+    - destruct ((e =? 0) || negb (r_rrc s)); destruct prot; intro H; in_list H.
+    - destruct (e =? 0); intro H; in_list H.
   Qed.
 
   Lemma dispatch_hs W prot s e q t body e' q' body' :
     In (OHs e' q' body') (snd (dispatch W prot s e q t body)) ->
     e' = e /\ q' = q /\ body' = body /\ t = 22 /\ (r_estab s = true -> e <> 0).
   Proof.
-    unfold Rec13.dispatch. destruct (t =? 22) eqn:E22.
+    unfold Rec13.dispatch, commit. cbv zeta. destruct (t =? 22) eqn:E22.
     { destruct (r_estab s && (e =? 0)) eqn:Ee; [intros []|].
-      destruct (hs_ok hs_room body); cbn; [|intros []].
-      intros [H | [H | []]]; [discriminate|]. inversion H; subst.
-      split; [reflexivity|]. split; [reflexivity|]. split; [reflexivity|]. split; [lia|].
-      intros Hes. rewrite Hes in Ee. cbn in Ee. lia. }
+      destruct (hs_ok hs_room body); destruct prot; intro H; in_list H; inversion H; subst;
+        (split; [reflexivity|]; split; [reflexivity|]; split; [reflexivity|]; split; [lia|];
+         intros Hes; rewrite Hes in Ee; cbn in Ee; lia). }
     destruct (decode_content t body) as [p | level desc | | | ].
-    - destruct (e =? 0); cbn; intros H; repeat (destruct H as [H | H]; [discriminate|]); destruct H.
+    - destruct (e =? 0); [intros []|]. destruct (r_estab s); [|destruct (Nat.ltb (length (r_early s)) max_queue)];
+        destruct prot; intro H; in_list H.
     - destruct (r_estab s && (e =? 0)); [intros []|].
-      destruct ((level =? 2) || (desc =? 0)); destruct (desc =? 0); cbn;
-        intros H; repeat (destruct H as [H | H]; [discriminate|]); destruct H.
-    - destruct (e =? 0); cbn; intros H; repeat (destruct H as [H | H]; [discriminate|]); destruct H.
-    - destruct ((e =? 0) || negb (r_rrc s)); cbn; intros H; repeat (destruct H as [H | H]; [discriminate|]); destruct H.
-    - destruct (e =? 0); cbn; intros H; repeat (destruct H as [H | H]; [discriminate|]); destruct H.
+      destruct ((level =? 2) || (desc =? 0)); destruct (desc =? 0); destruct prot; intro H; in_list H.
+    - destruct (e =? 0); [intros []|]. destruct prot; intro H; in_list H.
+    - destruct ((e =? 0) || negb (r_rrc s)); destruct prot; intro H; in_list H.
+    - destruct (e =? 0); intro H; in_list H.
   Qed.
 
   (* once the handshake is complete only authentic handshake records of a protected epoch (KeyUpdate,
@@ -1380,32 +1462,14 @@ Section Recv.
       destruct (open_record s h ct) as [body' t q' e' | | ]; [|intros []|intros []].
       destruct (get_win W e' _) as [mx w]. destruct (negb (check mx w q')); [intros []|].
       destruct (maxseq48 <? q'); [intros []|].
-      intro H. pose proof H as H0. apply dispatch_acks in H. destruct H as (-> & -> & -> & He). split; [exact He|].
-      (* the inner type is 26 *)
-      unfold Rec13.dispatch in H0. destruct (t =? 22) eqn:E22.
-      { destruct (r_estab _ && (e' =? 0)); [destruct H0|].
-        destruct (hs_ok hs_room body'); cbn in H0; repeat (destruct H0 as [H0 | H0]; [discriminate|]); destruct H0. }
-      unfold decode_content in H0.
-      destruct (t =? 21) eqn:E21.
-      { destruct body' as [|l [|d [|x y]]]; cbn in H0;
-          try (destruct (r_estab _ && (e' =? 0)); [destruct H0|]);
-          try (destruct (e' =? 0); cbn in H0);
-          try (destruct ((l =? 2) || (d =? 0)); destruct (d =? 0); cbn in H0);
-          repeat (destruct H0 as [H0 | H0]; [discriminate|]); try destruct H0. }
-      destruct (t =? 23) eqn:E23.
-      { destruct (e' =? 0); cbn in H0; repeat (destruct H0 as [H0 | H0]; [discriminate|]); destruct H0. }
-      destruct (t =? 26) eqn:E26; [assert (t = 26) by lia; now subst|].
-      destruct (t =? 27).
-      { destruct (rrc_ok body'); [destruct ((e' =? 0) || negb (r_rrc _))|destruct (e' =? 0)]; cbn in H0;
-          repeat (destruct H0 as [H0 | H0]; [discriminate|]); destruct H0. }
-      destruct (e' =? 0); cbn in H0; repeat (destruct H0 as [H0 | H0]; [discriminate|]); destruct H0.
+      intro H. apply dispatch_acks in H. destruct H as (-> & -> & -> & He & ->). split; [exact He|reflexivity].
     - unfold Rec13.recv_legacy.
       destruct (length (c :: b') <? 13)%nat; [intros []|].
       destruct (negb (legacy_version_ok (c :: b'))); [intros []|].
       destruct (r_epoch s <? _); [intros []|].
       destruct (get_win W _ _) as [mx w]. destruct (negb (check mx w _)); [intros []|].
       destruct (_ =? 0) eqn:E0.
-      + intro H. apply dispatch_acks in H. destruct H as (-> & _ & _ & He). lia.
+      + intro H. apply dispatch_acks in H. destruct H as (-> & _ & _ & He & _). lia.
       + destruct (negb (has_prot _)); intros [].
   Qed.
 
@@ -1451,7 +1515,7 @@ Section Recv.
               (forall e, snd (get_win W e (r_wins (enqueue lease s0 b))) = snd (get_win W e (r_wins s))) /\
               (r_queue (enqueue lease s0 b) = r_queue s \/ r_queue (enqueue lease s0 b) = r_queue s ++ [b])).
     { intros s0 Hk Hh Hc Hw Hq.
-      destruct (enqueue_spec lease s0 b) as [(E1 & E2 & E3 & E4 & E5 & E6 & E7 & E8 & E9 & E10) Hqq].
+      destruct (enqueue_spec lease s0 b) as [(E1 & E2 & E3 & E4 & E5 & E6 & E7 & E8 & E9 & E10 & E11) Hqq].
       split; [reflexivity|]. split; [eapply keys_same_trans; [exact Hk|apply keys_same_enqueue]|].
       split; [congruence|]. split; [congruence|]. split; [intro e; rewrite E4; apply Hw|].
       destruct Hqq as [-> | (-> & _)]; rewrite Hq; auto. }
@@ -1530,20 +1594,8 @@ Section Recv.
     assert (Henq : forall s0, r_queue s0 = r_queue s ->
               r_queue (enqueue lease s0 b) = r_queue s \/ r_queue (enqueue lease s0 b) = r_queue s ++ [b]).
     { intros s0 Hq. destruct (enqueue_spec lease s0 b) as [_ [-> | (-> & _)]]; rewrite Hq; auto. }
-    assert (Hmark : forall prot s0 e q, r_queue (mark W prot s0 e q) = r_queue s0).
-    { intros prot s0 e q. unfold mark. destruct (get_win W e (r_wins s0)) as [mx w].
-      destruct (accept mx w q) as [w' isl]. destruct (prot && isl); reflexivity. }
-    assert (Hdisp : forall prot s0 e q t body, r_queue (fst (dispatch W prot s0 e q t body)) = r_queue s0).
-    { intros prot s0 e q t body. unfold Rec13.dispatch. destruct (t =? 22).
-      - destruct (r_estab s0 && (e =? 0)); [reflexivity|].
-        destruct (hs_ok hs_room body); cbn [fst]; [apply Hmark|reflexivity].
-      - destruct (decode_content t body) as [p | level desc | | | ].
-        + destruct (e =? 0); cbn [fst]; [reflexivity|apply Hmark].
-        + destruct (r_estab s0 && (e =? 0)); [reflexivity|].
-          destruct ((level =? 2) || (desc =? 0)); cbn [fst with_closed r_queue]; apply Hmark.
-        + destruct (e =? 0); cbn [fst]; [reflexivity|apply Hmark].
-        + destruct ((e =? 0) || negb (r_rrc s0)); cbn [fst]; [reflexivity|apply Hmark].
-        + destruct (e =? 0); reflexivity. }
+    assert (Hdisp : forall prot s0 e q t body, r_queue (fst (dispatch W prot s0 e q t body)) = r_queue s0)
+      by (intros; apply dispatch_queue).
     unfold Rec13.recv_record. destruct b as [|c b']; [now left|].
     destruct (is_ct13 c).
     - unfold Rec13.recv_cipher. destruct (parse_crec s (c :: b')) as [[h ct]|]; [|now left].
@@ -1587,44 +1639,90 @@ Section Recv.
     destruct H as [H | H]; [now apply Ho1|]. apply (IH s1 Hes1 HF'). now rewrite E2.
   Qed.
 
+  Lemma dispatch_early_estab W prot s e q t body :
+    r_estab s = true -> r_early (fst (dispatch W prot s e q t body)) = r_early s.
+  Proof.
+    intro Hes. destruct (commit_estab W prot s e q) as (_ & He & _ & _).
+    unfold Rec13.dispatch. cbv zeta. rewrite Hes. destruct (t =? 22).
+    - destruct (true && (e =? 0)); [reflexivity|].
+      destruct (hs_ok hs_room body); cbn [fst]; [exact He|reflexivity].
+    - destruct (decode_content t body) as [p | level desc | | | ].
+      + destruct (e =? 0); [reflexivity|]. cbn [fst]. exact He.
+      + destruct (true && (e =? 0)); [reflexivity|].
+        destruct ((level =? 2) || (desc =? 0)); cbn [fst with_closed r_early]; exact He.
+      + destruct (e =? 0); cbn [fst]; [reflexivity|exact He].
+      + destruct ((e =? 0) || negb (r_rrc s)); cbn [fst]; [reflexivity|exact He].
+      + destruct (e =? 0); reflexivity.
+  Qed.
+
+  Lemma recv_record_early_estab W lease s b :
+    r_estab s = true -> r_early (fst (recv_record W lease s b)) = r_early s.
+  Proof.
+    intro Hes.
+    assert (Henq : forall s0, r_early (enqueue lease s0 b) = r_early s0).
+    { intro s0. now destruct (enqueue_spec lease s0 b) as [(_ & _ & _ & _ & _ & _ & _ & _ & _ & _ & H) _]. }
+    unfold Rec13.recv_record. destruct b as [|c b']; [reflexivity|].
+    destruct (is_ct13 c).
+    - unfold Rec13.recv_cipher. destruct (parse_crec s (c :: b')) as [[h ct]|]; [|reflexivity].
+      destruct (negb (has_prot s)); [apply Henq|].
+      destruct (open_record s h ct) as [body t q e | | ].
+      + destruct (get_win W e _) as [mx w]. destruct (negb (check mx w q)); [reflexivity|].
+        destruct (maxseq48 <? q); [reflexivity|]. now rewrite dispatch_early_estab.
+      + cbn [fst]. destruct (queueable_epoch _ _); [apply Henq|reflexivity].
+      + reflexivity.
+    - unfold Rec13.recv_legacy. destruct (length (c :: b') <? 13)%nat; [reflexivity|].
+      destruct (negb (legacy_version_ok (c :: b'))); [reflexivity|].
+      destruct (r_epoch s <? _).
+      { cbn [fst]. destruct (max_future (r_epoch s) <? _); [reflexivity|apply Henq]. }
+      destruct (get_win W _ _) as [mx w]. destruct (negb (check mx w _)); [reflexivity|].
+      destruct (_ =? 0); [now rewrite dispatch_early_estab|].
+      destruct (negb (has_prot _)); [|reflexivity]. cbn [fst]. now rewrite Henq.
+  Qed.
+
   Lemma recv_list_inv W lease : forall rs s,
     r_estab s = true -> QI s -> Forall (fun r => typed13 r = true) rs ->
-    r_estab (fst (recv_list W lease s rs)) = true /\ QI (fst (recv_list W lease s rs)).
+    r_estab (fst (recv_list W lease s rs)) = true /\ QI (fst (recv_list W lease s rs)) /\
+    r_early (fst (recv_list W lease s rs)) = r_early s.
   Proof.
-    induction rs as [|r rs IH]; intros s Hes HQ HF; [split; assumption|].
+    induction rs as [|r rs IH]; intros s Hes HQ HF; [auto|].
     inversion HF as [|? ? Hr HF']; subst. cbn [Rec13.recv_list].
     pose proof (recv_record_keys W lease s r) as Hk. pose proof (recv_record_queue_shape W lease s r) as Hq.
+    pose proof (recv_record_early_estab W lease s r Hes) as Hy.
     destruct (recv_record W lease s r) as [s1 o1]. cbn [fst] in *.
     assert (Hes1 : r_estab s1 = true) by (destruct Hk as (_ & _ & _ & _ & _ & _ & He); congruence).
     assert (HQ1 : QI s1).
     { unfold QI. destruct Hq as [-> | ->]; [exact HQ|]. apply Forall_app. split; [exact HQ|]. constructor; [exact Hr|constructor]. }
-    destruct (existsb is_err o1); [split; assumption|].
-    specialize (IH s1 Hes1 HQ1 HF'). destruct (recv_list W lease s1 rs) as [s2 o2]. exact IH.
+    destruct (existsb is_err o1); [auto|].
+    specialize (IH s1 Hes1 HQ1 HF'). destruct (recv_list W lease s1 rs) as [s2 o2]. cbn [fst] in *.
+    destruct IH as (I1 & I2 & I3). split; [exact I1|]. split; [exact I2|congruence].
   Qed.
 
   (* C05, established connection, epoch 0 included: over every later history every visible output
      (delivery, alert acted on or written, handshake / ACK record handed on, close, error) comes out of
      the ciphertext path, hence - by effect_only_authentic - from a record that authenticated *)
   Theorem established_outputs_from_ciphertext W o : forall ops s,
-    r_estab s = true -> QI s -> In o (snd (run_ops W s ops)) ->
+    r_estab s = true -> r_early s = [] -> QI s -> In o (snd (run_ops W s ops)) ->
     exists lease s' b, r_estab s' = true /\ In o (snd (recv_cipher W lease s' b)).
   Proof.
-    induction ops as [|op ops IH]; intros s Hes HQ H; [destruct H|].
+    induction ops as [|op ops IH]; intros s Hes Hey HQ H; [destruct H|].
     cbn [Rec13.run_ops] in H.
     assert (Hstep : (In o (snd (step W s op)) -> exists lease s' b, r_estab s' = true /\ In o (snd (recv_cipher W lease s' b))) /\
-                    r_estab (fst (step W s op)) = true /\ QI (fst (step W s op))).
+                    r_estab (fst (step W s op)) = true /\ r_early (fst (step W s op)) = [] /\ QI (fst (step W s op))).
     { destruct op as [d | e | e | | cid neg rrc | ]; cbn [Rec13.step fst snd];
-        try (split; [intros []|split; [first [exact Hes | reflexivity]|exact HQ]]).
-      - unfold Rec13.recv13. destruct (r_closed s); [cbn [fst snd]; split; [intros []|split; assumption]|].
-        unfold unpack_datagram13. destruct (unpack13 _ _ None (length d) d) as [rs|] eqn:Eu; [|cbn [fst snd]; split; [intros []|split; assumption]].
+        try (split; [intros []|split; [exact Hes|split; [exact Hey|exact HQ]]]).
+      - unfold Rec13.recv13. destruct (r_closed s); [cbn [fst snd]; split; [intros []|auto]|].
+        unfold unpack_datagram13. destruct (unpack13 _ _ None (length d) d) as [rs|] eqn:Eu; [|cbn [fst snd]; split; [intros []|auto]].
         pose proof (unpack13_typed _ _ _ _ _ _ Eu) as HF.
-        split; [intro Hin; exists true; now apply (recv_list_est W true o rs s)|now apply recv_list_inv].
-      - destruct (r_closed s); [cbn [fst snd]; split; [intros []|split; assumption]|].
+        split; [intro Hin; exists true; now apply (recv_list_est W true o rs s)|].
+        destruct (recv_list_inv W true rs s Hes HQ HF) as (I1 & I2 & I3). split; [exact I1|]. split; [congruence|exact I2].
+      - rewrite Hey. cbn [map]. split; [intros []|]. split; [reflexivity|]. split; [reflexivity|exact HQ].
+      - destruct (r_closed s); [cbn [fst snd]; split; [intros []|auto]|].
         split; [intro Hin; exists false; apply (recv_list_est W false o (r_queue s) (with_queue s [])); auto|].
-        apply recv_list_inv; auto. constructor. }
-    destruct (step W s op) as [s1 o1]. cbn [fst snd] in Hstep. destruct Hstep as (Ho & Hes1 & HQ1).
+        destruct (recv_list_inv W false (r_queue s) (with_queue s []) Hes (Forall_nil _) HQ) as (I1 & I2 & I3).
+        split; [exact I1|]. split; [cbn [with_queue r_early] in I3; congruence|exact I2]. }
+    destruct (step W s op) as [s1 o1]. cbn [fst snd] in Hstep. destruct Hstep as (Ho & Hes1 & Hey1 & HQ1).
     destruct (run_ops W s1 ops) as [s2 o2] eqn:E2. cbn [snd] in H. apply in_app_iff in H.
-    destruct H as [H | H]; [now apply Ho|]. apply (IH s1 Hes1 HQ1). now rewrite E2.
+    destruct H as [H | H]; [now apply Ho|]. apply (IH s1 Hes1 Hey1 HQ1). now rewrite E2.
   Qed.
 
   (* the queue invariant holds in every state reachable from the initial one, and "established" is never undone *)
@@ -1690,23 +1788,25 @@ Section Ideal.
     In (p, e, q) (deliveries (snd (run_ops snmask aopen hs_room W s ops))) ->
     e <> 0 /\ exists a c i, In (e, q, a, c, i) log /\ inner_unmarshal i = Some (p, 23).
   Proof.
-    intro H. apply in_deliveries in H. apply run_origin in H. destruct H as (lease & s' & r & H).
-    apply in_deliveries in H. apply deliver_only_sealed in H.
+    intro H. apply in_deliveries in H.
+    assert (Ho : exists lease s' r, In (p, e, q) (deliveries (snd (recv_record snmask aopen hs_room W lease s' r)))).
+    { destruct H as [H | H]; (apply run_origin in H; [|reflexivity]); destruct H as (lease & s' & r & H);
+        exists lease, s', r; apply in_deliveries; [left|right]; exact H. }
+    destruct Ho as (lease & s' & r & H). apply deliver_only_sealed in H.
     destruct H as (He & _ & _ & _ & h & ct & inner & _ & _ & _ & Hl & Hi). split; [exact He|]. eauto.
   Qed.
 
-  (* every commit of a replay slot in a protected epoch - i.e. every record the endpoint acted on:
-     application data, alert, handshake (incl. KeyUpdate), ACK, RRC - is a tuple the peer sealed *)
+  (* every commit of a replay slot - an unprotected record never commits one - is a tuple the peer sealed *)
   Theorem run_marks_sealed W ops s e q :
     In (e, q) (marks (snd (run_ops snmask aopen hs_room W s ops))) ->
-    e = 0 \/ exists a c i, In (e, q, a, c, i) log.
+    exists a c i, In (e, q, a, c, i) log.
   Proof.
-    intro H. apply in_marks in H. apply run_origin in H. destruct H as (lease & s' & r & H).
+    intro H. apply in_marks in H. apply run_origin in H; [|reflexivity]. destruct H as (lease & s' & r & H).
     apply in_marks in H. unfold Rec13.recv_record in H. destruct r as [|c r']; [destruct H|].
     destruct (is_ct13 c).
-    - right. apply recv_cipher_marks in H. destruct H as (body & t & H). apply (auth_cipher_spec snmask aopen) in H.
+    - apply recv_cipher_marks in H. destruct H as (body & t & H). apply (auth_cipher_spec snmask aopen) in H.
       destruct H as (h & ct & inner & _ & _ & _ & _ & _ & Hopen & _). eauto.
-    - left. eapply recv_legacy_marks; eauto.
+    - exfalso. eapply recv_legacy_marks; eauto.
   Qed.
 
   (* a ciphertext record has a visible effect only if it was sealed by the peer *)
